@@ -52,6 +52,7 @@ func cmdRun(args []string) {
 	workers := fs.Int("j", 16, "workers")
 	steps := fs.Int("steps", 2000000, "max steps per path")
 	tmo := fs.Int("timeout", 10000, "solver timeout ms")
+	maxPaths := fs.Int("paths", 0, "stop after this many paths")
 	fs.Parse(args)
 	p := *pkg
 	if !strings.Contains(p, ".") {
@@ -66,7 +67,7 @@ func cmdRun(args []string) {
 		fmt.Fprintln(os.Stderr, err)
 		os.Exit(2)
 	}
-	spec := &HarnessSpec{Pkg: p, Func: *fn, Params: parseInts(*params)}
+	spec := &HarnessSpec{Pkg: p, Func: *fn, Params: parseInts(*params), MaxPaths: *maxPaths}
 	f, err := findHarness(prog, spec)
 	if err != nil {
 		fmt.Fprintln(os.Stderr, err)
@@ -74,7 +75,15 @@ func cmdRun(args []string) {
 	}
 	run := &HarnessRun{Spec: spec, fn: f}
 	pool := NewPool(prog, Config{MaxSteps: *steps, TimeoutMs: *tmo, Workers: *workers})
+	if os.Getenv("GOSYM_FORKS") != "" {
+		forkStats = map[string]int{}
+	}
 	pool.RunAll([]*HarnessRun{run})
+	for k, v := range forkStats {
+		if v > 3 {
+			fmt.Printf("forks %6d  %s\n", v, k)
+		}
+	}
 	fmt.Printf("harness %s: paths=%d vacuous=%d steps=%d solverVCs=%d syntVCs=%d wall=%.2fs\n", spec.ID(), run.Paths, run.Vacuous, run.Steps, run.SolverVCs, run.SyntVCs, run.Wall)
 	fmt.Printf("reached: %v\n", run.Reached)
 	for k, q := range pool.SolverQ {
